@@ -711,3 +711,216 @@ Proof.
   eapply (ctx_node_no_new_cell flits lookup budget inc var src [] ins false [] c w _ w None); [|exact Hin|exact Hc].
   exact W.
 Qed.
+
+(* ------------------------------------------------------------------ the if-ok block *)
+
+(* a name that is one path segment: what a variable of an if-ok header must be for the
+   extended condition (!ok) to find it again *)
+Definition simple_name (k : bytes) : bool :=
+  nonempty k && forallb (fun x => negb (beqb x "."%byte)) k.
+
+Lemma split_on_nosep sep : forall s cur,
+  forallb (fun x => negb (beqb x sep)) s = true -> split_on sep s cur = [rev cur ++ s].
+Proof.
+  induction s as [|x s IH]; intros cur H; [cbn; rewrite app_nil_r; reflexivity|].
+  cbn [forallb] in H. apply andb_true_iff in H. destruct H as [Hx Hs].
+  cbn [split_on]. destruct (beqb x sep); [discriminate Hx|].
+  rewrite (IH (x :: cur) Hs). cbn [rev]. rewrite <- app_assoc. reflexivity.
+Qed.
+
+Lemma split_dot_simple k : simple_name k = true -> split_dot k = [k].
+Proof.
+  unfold simple_name, split_dot. intros H. apply andb_true_iff in H. destruct H as [H1 H2].
+  destruct k as [|x k]; [discriminate H1|]. exact (split_on_nosep _ _ [] H2).
+Qed.
+
+Lemma n_vok_same : Compile.n_vok = Interp.n_vok.
+Proof. reflexivity. Qed.
+
+Section IfOK.
+  Variable flits : list (bytes * Z).
+  Variable lookup : list bytes -> option tree.
+  Variable budget : nat.
+  Variable inc : tree -> ctx -> option (ctx * bytes * option err).
+  Variable rlookup : list bytes -> option (list ast).
+  Variable rinc : list ast -> env -> option res.
+  Notation wn := (write_node flits lookup budget inc).
+  Notation re := (ref_eval flits rlookup budget rinc).
+  Notation node_ref := (node_ref flits lookup budget inc rlookup rinc).
+  Notation items_ok := (items_ok flits lookup budget inc rlookup rinc).
+
+  (* the node of a compiled if-ok header, unfolded once *)
+  Lemma wn_condok v okv arg arglit ci child c w :
+    cHlp ci = Compile.n_vok -> cHlpArg ci = [mkArg [] arg arglit false] ->
+    wn (NCondOK (mkOk v okv b_static) ci child) c w =
+    (let (c1, args) := collect_args (set_cerr None c) [mkArg [] arg arglit false] in
+     let (val, okb) := vok_result (bufLC c1) args in
+     let c2 := set_bufB okb (ctx_set_static okv (VBool okb) (ctx_set v val true c1)) in
+     let '(c3, r, e) := match cR ci with
+                        | [] => (c2, okb, None)
+                        | _ :: _ => node_cmp flits c2 (cL ci) (cR ci) (cSL ci) (cSR ci) (cOp ci)
+                        end in
+     if r then match child with ch :: _ => wn ch c3 w | [] => Out c3 w e end
+     else match child with _ :: ch :: _ => wn ch c3 w | _ => Out c3 w e end).
+  Proof. intros H1 H2. cbn [write_node]. rewrite H1, H2. reflexivity. Qed.
+
+  (* the two assignments of the header *)
+  Lemma ifok_assign L v okv val okb c1 :
+    Inv L c1 -> cell_free val ->
+    let c2 := set_bufB okb (ctx_set_static okv (VBool okb) (ctx_set v val true c1)) in
+    abs c2 = env_set okv (VBool okb) true (env_set v val true (abs c1)) /\ Inv L c2.
+  Proof.
+    intros HI CF c2. split.
+    - unfold c2, ctx_set_static. change (abs (set_bufB okb ?x)) with (abs x).
+      rewrite !abs_ctx_set. cbn [deref]. rewrite (CF _). reflexivity.
+    - unfold c2, ctx_set_static. apply (ceq_Inv L _ _ (ceq_bufB _ _)).
+      apply Inv_ctx_set; [left; apply cell_free_bool|apply not_live_cell_free, cell_free_bool|].
+      apply Inv_ctx_set; [left; exact CF|apply not_live_cell_free, CF|exact HI].
+  Qed.
+
+  (* the extended condition "okv != true" reads the flag just assigned *)
+  Lemma ifok_neg_cmp okv okb cx :
+    simple_name okv = true ->
+    let c2 := set_bufB okb (ctx_set_static okv (VBool okb) cx) in
+    exists c3, node_cmp flits c2 okv b_true false true OpNq = (c3, negb okb, None) /\ ceq c3 c2.
+  Proof.
+    intros Hs c2. unfold node_cmp. cbn [andb]. unfold ctx_cmp. rewrite (split_dot_simple okv Hs).
+    unfold c2, ctx_set_static, ctx_set. change (vars (set_bufB okb ?x)) with (vars x).
+    destruct (find_var_put okv (fun s => mkSlot (s_key s) (VBool okb) [] false (s_cntr s) true)
+                           (mkSlot okv (VBool okb) [] false 0 true) cx) as (s & F & Hsl); [reflexivity|reflexivity|].
+    rewrite F.
+    assert (SV : var_value s [] = VBool okb /\ s_static s = true).
+    { destruct Hsl as [->|(s0 & _ & ->)]; split; reflexivity. }
+    destruct SV as [SV ST]. rewrite SV, ST. cbn [leaf_cmp cmp_of_op].
+    change (parse_bool b_true) with (Some true). cbn [option_map].
+    eexists. split; [destruct okb; reflexivity|].
+    eapply ceq_trans; [apply ceq_bufB|apply ceq_cerr].
+  Qed.
+
+  Theorem ifok_ref L v okv arg (arglit neg : bool) th el (he : bool) :
+    items_ok false L th -> items_ok false L el -> (neg = true -> simple_name okv = true) ->
+    node_ref L
+      (NCondOK (mkOk v okv b_static)
+         (if neg then mkCond okv b_true false true OpNq Compile.n_vok [mkArg [] arg arglit false] LcNone
+          else mkCond okv [] false false OpUnk Compile.n_vok [mkArg [] arg arglit false] LcNone)
+         (NBlock BTrue no_case (merge_raws (c_list compile th)) ::
+          (if he then [NBlock BFalse no_case (merge_raws (c_list compile el))] else [])))
+      (AIfOK v okv arg arglit neg th el he).
+  Proof.
+    intros Hth Hel Hneg c w HI Hw o e' s E D. cbn [ref_eval] in E.
+    rewrite (wn_condok v okv arg arglit) by (destruct neg; reflexivity).
+    (* the argument *)
+    assert (EA : eval_args (abs (set_cerr None c)) [mkAArg arglit arg []] =
+                 match (if arglit then Some (VBytes arg) else env_get (abs c) arg) with
+                 | Some x => Some [AVal x] | None => None end).
+    { cbn [eval_args aa_lit aa_text aa_kv]. destruct arglit; [reflexivity|].
+      change (abs (set_cerr None c)) with (abs c). destruct (env_get (abs c) arg); reflexivity. }
+    destruct (if arglit then Some (VBytes arg) else env_get (abs c) arg) as [x|]; [|inversion E; subst; contradiction].
+    destruct (collect_args_ref [mkAArg arglit arg []] (set_cerr None c) [AVal x] (Inv_slots L c HI) EA)
+      as (c1 & vs & EC & Q1 & EV & _).
+    change (map c_arg [mkAArg arglit arg []]) with [mkArg [] arg arglit false] in EC. rewrite EC.
+    destruct vs as [|a0 [|a1 vs]]; try discriminate EV. destruct a0 as [v0|k0 v0]; [|discriminate EV].
+    cbn [map deref_arg bufLC set_cerr] in EV. inversion EV as [EX]. clear EV. subst x.
+    assert (Q : ceq c1 c) by (eapply ceq_trans; [exact Q1|apply ceq_cerr]).
+    pose proof (ceq_Inv L _ _ Q HI) as I1.
+    assert (BL : bufLC c1 = bufLC c) by (destruct Q as (_&QL&_); exact QL).
+    rewrite text_of_deref in E. unfold vok_result. cbn [arg_value]. rewrite BL.
+    (* the value handed out and the flag *)
+    assert (G : exists val okb,
+      (match text_of (bufLC c) v0 with Some ((_ :: _) as t) => (VBytes t, true) | _ => (VNil, false) end) = (val, okb) /\
+      cell_free val).
+    { destruct (text_of (bufLC c) v0) as [[|b0 t0]|]; eexists _, _; (split; [reflexivity|]);
+        first [apply cell_free_nil|apply cell_free_bytes]. }
+    destruct G as (val & okb & EG & CF). rewrite EG in E |- *.
+    destruct (ifok_assign L v okv val okb c1 I1 CF) as [A2 I2]. cbv zeta in A2, I2.
+    rewrite (ceq_abs _ _ Q) in A2.
+    set (c2 := set_bufB okb (ctx_set_static okv (VBool okb) (ctx_set v val true c1))) in *.
+    (* the condition *)
+    assert (R : exists c3, (match cR (if neg then mkCond okv b_true false true OpNq Compile.n_vok [mkArg [] arg arglit false] LcNone
+                                      else mkCond okv [] false false OpUnk Compile.n_vok [mkArg [] arg arglit false] LcNone) with
+                            | [] => (c2, okb, None)
+                            | _ :: _ => node_cmp flits c2
+                                 (cL (if neg then mkCond okv b_true false true OpNq Compile.n_vok [mkArg [] arg arglit false] LcNone
+                                      else mkCond okv [] false false OpUnk Compile.n_vok [mkArg [] arg arglit false] LcNone))
+                                 (cR (if neg then mkCond okv b_true false true OpNq Compile.n_vok [mkArg [] arg arglit false] LcNone
+                                      else mkCond okv [] false false OpUnk Compile.n_vok [mkArg [] arg arglit false] LcNone))
+                                 (cSL (if neg then mkCond okv b_true false true OpNq Compile.n_vok [mkArg [] arg arglit false] LcNone
+                                       else mkCond okv [] false false OpUnk Compile.n_vok [mkArg [] arg arglit false] LcNone))
+                                 (cSR (if neg then mkCond okv b_true false true OpNq Compile.n_vok [mkArg [] arg arglit false] LcNone
+                                       else mkCond okv [] false false OpUnk Compile.n_vok [mkArg [] arg arglit false] LcNone))
+                                 (cOp (if neg then mkCond okv b_true false true OpNq Compile.n_vok [mkArg [] arg arglit false] LcNone
+                                       else mkCond okv [] false false OpUnk Compile.n_vok [mkArg [] arg arglit false] LcNone))
+                            end) = (c3, xorb neg okb, None) /\ ceq c3 c2).
+    { destruct neg.
+      - cbn [cR cL cSL cSR cOp]. change b_true with (["t";"r";"u";"e"]%byte) at 1. cbv iota.
+        destruct (ifok_neg_cmp okv okb (ctx_set v val true c1) (Hneg eq_refl)) as (c3 & EC3 & Q3).
+        exists c3. split; [exact EC3|exact Q3].
+      - cbn [cR]. exists c2. split; [destruct okb; reflexivity|apply ceq_refl]. }
+    destruct R as (c3 & ER & Q3). rewrite ER.
+    pose proof (ceq_Inv L _ _ Q3 I2) as I3. rewrite <- A2, <- (ceq_abs _ _ Q3) in E.
+    destruct (xorb neg okb).
+    - apply (nblock_ref flits lookup budget inc rlookup rinc); assumption.
+    - destruct he.
+      + apply (nblock_ref flits lookup budget inc rlookup rinc); assumption.
+      + inversion E; subst. exists c3, w, None. rewrite app_nil_r. splits; done.
+  Qed.
+End IfOK.
+
+(* ------------------------------------------------------------------ signals leave an if-ok block *)
+
+(* the result of an if-ok node IS the result of the branch it chooses: whatever that branch
+   raises (exit, break, a writer error ...) is what the node returns -- nothing is swallowed *)
+Theorem condok_runs_child flits lookup budget inc k (ci : condinfo) ch1 ch2 rest c w :
+  cHlp ci = Interp.n_vok -> oIns k = n_static ->
+  exists c3 (b : bool),
+    write_node flits lookup budget inc (NCondOK k ci (ch1 :: ch2 :: rest)) c w =
+    write_node flits lookup budget inc (if b then ch1 else ch2) c3 w.
+Proof.
+  intros H1 H2. cbn [write_node]. rewrite H1, H2. cbn [bytes_eqb].
+  change (bytes_eqb Interp.n_vok Interp.n_vok) with true. change (bytes_eqb n_static n_static) with true.
+  cbv iota. unfold Interp.n_vok at 1. cbv iota.
+  destruct (collect_args (set_cerr None c) (cHlpArg ci)) as [c1 args].
+  destruct (vok_result (bufLC c1) args) as [v okb].
+  destruct (cR ci) as [|r0 rr].
+  - eexists _, okb. destruct okb; reflexivity.
+  - destruct (node_cmp flits _ (cL ci) (r0 :: rr) (cSL ci) (cSR ci) (cOp ci)) as [[c3 r] e].
+    exists c3, r. destruct r; reflexivity.
+Qed.
+
+Lemma block_exit flits lookup budget inc kd ki r c w :
+  write_node flits lookup budget inc (NBlock kd ki (NExit :: r)) c w = Out (set_cerr None c) w (Some EInterrupt).
+Proof. reflexivity. Qed.
+
+Lemma block_break flits lookup budget inc kd ki d r c w :
+  write_node flits lookup budget inc (NBlock kd ki (NBreak d :: r)) c w =
+  Out (set_brkD (Z.max d (brkD c)) (set_cerr None c)) w (Some EBreak).
+Proof. reflexivity. Qed.
+
+(* exit inside an if-ok block (in either branch) ends the template: the node returns the signal *)
+Theorem exit_inside_ifok flits lookup budget inc k (ci : condinfo) ki1 ki2 r1 r2 rest c w :
+  cHlp ci = Interp.n_vok -> oIns k = n_static ->
+  exists c',
+    write_node flits lookup budget inc
+      (NCondOK k ci (NBlock BTrue ki1 (NExit :: r1) :: NBlock BFalse ki2 (NExit :: r2) :: rest)) c w =
+    Out c' w (Some EInterrupt).
+Proof.
+  intros H1 H2.
+  destruct (condok_runs_child flits lookup budget inc k ci (NBlock BTrue ki1 (NExit :: r1)) (NBlock BFalse ki2 (NExit :: r2))
+                              rest c w H1 H2) as (c3 & b & E).
+  rewrite E. exists (set_cerr None c3). destruct b; apply block_exit.
+Qed.
+
+(* break inside an if-ok block reaches the enclosing loop, with its depth recorded *)
+Theorem break_inside_ifok flits lookup budget inc k (ci : condinfo) ki1 ki2 d r1 r2 rest c w :
+  cHlp ci = Interp.n_vok -> oIns k = n_static ->
+  exists c',
+    write_node flits lookup budget inc
+      (NCondOK k ci (NBlock BTrue ki1 (NBreak d :: r1) :: NBlock BFalse ki2 (NBreak d :: r2) :: rest)) c w =
+    Out c' w (Some EBreak) /\ d <= brkD c'.
+Proof.
+  intros H1 H2.
+  destruct (condok_runs_child flits lookup budget inc k ci (NBlock BTrue ki1 (NBreak d :: r1)) (NBlock BFalse ki2 (NBreak d :: r2))
+                              rest c w H1 H2) as (c3 & b & E).
+  rewrite E. exists (set_brkD (Z.max d (brkD c3)) (set_cerr None c3)).
+  split; [destruct b; apply block_break|cbn [brkD set_brkD]; lia].
+Qed.
